@@ -37,7 +37,7 @@ LEVEL_TEXT = (
     "specification, and the three views must equal the ObjectFile (sections with contents at the reported offsets, symbols, RELA entries, "
     "entry point, PT_LOAD bytes = image bytes). Objects come from three generators so that section/symbol/relocation shapes vary."
 )
-REGISTER = False
+REGISTER = True
 
 READELF = shutil.which("readelf")
 LLVM_READELF = shutil.which("llvm-readelf-14") or shutil.which("llvm-readelf")
@@ -360,6 +360,7 @@ def compare(exp, view, data, who, target):
     return None
 
 
+_BAD_MARKS = re.compile(r"<corrupt|<unknown|<no-name>|<no-strings>|<invalid|bad symbol index|out of range", re.I)
 _BAD_WORDS = re.compile(r"warning|error|corrupt|invalid|bad |unable|cannot|out of range|<corrupt|<unknown|unrecognized", re.I)
 
 
@@ -396,7 +397,8 @@ def check_tool_output(who, rc, out, err, state, hist):
     """One tool's verdict on one file: silent acceptance + equal view."""
     if rc != 0 or err.strip():
         return "%s exits %d, stderr: %s" % (who, rc, err.strip()[:400])
-    bad = [ln for ln in out.splitlines() if _BAD_WORDS.search(ln) and not ln.startswith(("  ", "Symbol table", "Relocation section", "File: "))]
+    # complaints on lines of their own, and the markers the tools substitute for unreadable items (generated names never contain '<')
+    bad = [ln for ln in out.splitlines() if (_BAD_WORDS.search(ln) and not ln.startswith(("  ", "Symbol table", "Relocation section", "File: "))) or _BAD_MARKS.search(ln)]
     if bad:
         return "%s prints: %s" % (who, bad[0][:300])
     try:
